@@ -6,15 +6,15 @@
    Part 3  build configuration: flags per configuration from the scraped cdefs.lua tables,
            release => nochecks from configer.lua.
    No proofs here. *)
-From C09 Require Export Gen Helpers.
+From C09 Require Export Gen Helpers VarDecl Order.
 Local Open Scope Z_scope.
 
 (* ------------------------------------------------------------------ *)
 (* Part 1: checks                                                      *)
 (* ------------------------------------------------------------------ *)
 
-(* the C dialect the emitted code is compiled in, from the scraped base flags *)
-Definition base_mode : cmode := mk_mode gcc_base_has_fwrapv false.
+(* the C dialect the emitted code is compiled in by both supported compilers, from the scraped base flags *)
+Definition base_mode : cmode := mk_mode (gcc_base_has_fwrapv && clang_base_has_fwrapv) false.
 
 (* the division helpers exactly as emitted: the position of the `b == -1` line comes from Gen.v *)
 Definition idiv_helper := emitted_idiv_helper idiv_guard_first.
@@ -80,9 +80,12 @@ Fixpoint is_used (fuel : nat) (g : graph) (visited : list nat) (s : nat) : optio
          end) (usedby g s) (s :: visited)
   end.
 
-(* cgenerator.visitors.FuncDef / VarDecl: emitted unless dead *)
+(* cgenerator.visitors.FuncDef / VarDecl: emitted unless dead.  That FuncDef returns early exactly when
+   `not nodce and not is_used(true)` is scraped (Gen.funcdef_dce_condition_found); if the condition is not
+   found the model does not know what is emitted (None) and the theorems about [emitted] break *)
 Definition emitted (fuel : nat) (g : graph) (nodce : bool) (s : nat) : option bool :=
-  if nodce then Some true
+  if negb funcdef_dce_condition_found then None
+  else if nodce then Some true
   else match is_used fuel g [] s with Some (b, _) => Some b | None => None end.
 
 (* ---- the initializer of a declaration `local x = e` (cgenerator.visitors.VarDecl) ----
@@ -115,41 +118,9 @@ Definition init_evaluated (nodce used : bool) (i : initinfo) : bool :=
 Definition needs_eval (i : initinfo) : bool :=
   ii_has_val i && negb (ii_val_comptime i) && negb (ii_vartype_comptime i).
 
-(* initializer shapes: every expression constructor around calls; [se] = the callee is marked *)
-Inductive iexpr :=
-  | IConst | IVar
-  | ICall (se : bool) (args : list iexpr)
-  | IMethod (se : bool) (obj : iexpr) (args : list iexpr)
-  | IField (e : iexpr) | IIndex (e i : iexpr) | IDeref (e : iexpr) | IParen (e : iexpr)
-  | ICast (e : iexpr) | IUn (e : iexpr) | IBin (l r : iexpr)
-  | IList (es : list iexpr).
-
-(* does evaluating it perform a marked call? *)
-Fixpoint effectful (e : iexpr) : bool :=
-  match e with
-  | IConst | IVar => false
-  | ICall se args => se || existsb effectful args
-  | IMethod se obj args => se || effectful obj || existsb effectful args
-  | IField e | IDeref e | IParen e | ICast e | IUn e => effectful e
-  | IIndex e i => effectful e || effectful i
-  | IBin l r => effectful l || effectful r
-  | IList es => existsb effectful es
-  end.
-
-(* the `sideeffect` attribute as analyzer.lua propagates it: calls take the callee's flag (arguments are not
-   looked at), casts / unary / binary operators / initializer lists propagate, field access, indexing and
-   dereference do not *)
-Fixpoint attr_se (e : iexpr) : bool :=
-  match e with
-  | IConst | IVar => false
-  | ICall se _ | IMethod se _ _ => se
-  | IField _ | IIndex _ _ | IDeref _ => false
-  | IParen e | ICast e | IUn e => attr_se e
-  | IBin l r => attr_se l || attr_se r
-  | IList es => existsb attr_se es
-  end.
-
-Definition info_of (e : iexpr) : initinfo := mk_ii false true false false (attr_se e).
+(* a declaration with a run-time initializer whose variable has a run-time type, the analyzer's `sideeffect`
+   attribute being whatever it is *)
+Definition info_rt (se : bool) : initinfo := mk_ii false true false false se.
 
 (* graphs given by association lists (driver) *)
 Definition graph_of (roots : list nat) (edges : list (nat * list nat)) : graph :=
